@@ -23,7 +23,7 @@
 
 use super::{compile, hexs, hook};
 use rotov_harness::driver::Driver;
-use rotov_harness::Report;
+use rotov_harness::{Prng, Report};
 use serde_json::{Value, json};
 use std::collections::BTreeSet;
 
@@ -434,6 +434,65 @@ const REPRESENTATIVES: &[&str] = &[
     "{{{x}}}", "}}{{", "{{}}", "{{{{", "}}}}", "{x}}}", "{{{x}",
 ];
 
+/// runs of escaped backslashes (even / odd number of backslashes) in front of
+/// everything that reads differently after a backslash
+fn backslash_runs() -> Vec<String> {
+    let tails = [
+        "u{{", "u{{x}}", "u{41}", "u{41}{{", "u{7b}{{", "{{", "}}", "{x}", "\"", "\"{{", "x7b", "x7b{{", "n{{", "u", "x", "é{{", "{{{x}}}",
+        "\n  {{",
+    ];
+    let mut out = vec![];
+    for n in 1..=6 {
+        for t in tails {
+            // n backslashes: even = n/2 escaped backslashes, odd = the last one escapes the tail's first character
+            out.push(format!("{}{t}", "\\".repeat(n)));
+            out.push(format!("{{{{{}{t}", "\\".repeat(n)));
+            out.push(format!("é{}{t}}}}}", "\\".repeat(n)));
+        }
+    }
+    out
+}
+
+fn check_with_models(rep: &mut Report, drv: &mut Driver, bodies: &[String]) -> Vec<bool> {
+    let mut reqs = vec![];
+    for b in bodies {
+        let q = hexs(&format!("{b}\""));
+        reqs.push(format!("c09 fstr {q}"));
+        reqs.push(format!("c09 fstrgen {q}"));
+    }
+    let ans = drv.ask_all(&reqs);
+    bodies.iter().enumerate().map(|(k, b)| check_parse(rep, b, Some(&ans[2 * k]), Some(&ans[2 * k + 1]))).collect()
+}
+
+/// random longer sequences over the wide alphabet (after the tables; depends on the seed)
+pub fn run_random(rep: &mut Report, drv: &mut Driver, p: &mut Prng, thorough: bool) {
+    let n = if thorough { 40_000 } else { 3_000 };
+    let mut bodies = vec![];
+    for _ in 0..n {
+        let len = 4 + p.below(9) as usize;
+        let mut b = String::new();
+        for _ in 0..len {
+            // escaped backslashes, `u`, and braces more often than the rest
+            let f = match p.below(10) {
+                0 | 1 => "\\\\",
+                2 => *p.pick(&["u", "x", "\\u{41}", "\\x7b"]),
+                3 | 4 => *p.pick(&["{{", "}}", "{x}"]),
+                _ => *p.pick(WIDE),
+            };
+            b.push_str(f);
+        }
+        bodies.push(b);
+    }
+    let oks = check_with_models(rep, drv, &bodies);
+    let mut budget = if thorough { 1500 } else { 120 };
+    for (b, ok) in bodies.iter().zip(oks) {
+        if ok && budget > 0 && b.contains('\\') && (b.contains("{{") || b.contains("}}")) {
+            budget -= 1;
+            check_eval(rep, b);
+        }
+    }
+}
+
 pub fn run(rep: &mut Report, drv: &mut Driver, thorough: bool) {
     // representatives first: parse, models, JIT
     for body in REPRESENTATIVES {
@@ -442,6 +501,14 @@ pub fn run(rep: &mut Report, drv: &mut Driver, thorough: bool) {
         let g = drv.ask(&format!("c09 fstrgen {q}"));
         check_parse(rep, body, Some(&h), Some(&g));
         check_eval(rep, body);
+    }
+    // backslash runs of every parity in front of `u{{`, braces, holes, quotes …
+    let runs = backslash_runs();
+    let oks = check_with_models(rep, drv, &runs);
+    for (b, ok) in runs.iter().zip(oks) {
+        if ok && (b.contains("{{") || b.contains("}}")) {
+            check_eval(rep, b);
+        }
     }
     // the exhaustive tables
     let mut all: BTreeSet<String> = BTreeSet::new();
